@@ -50,8 +50,31 @@ package cmd
 //@   assumed
 //@   ensures result != nil
 //@   modifies nothing
-//@ func resolveURL
+// resolveURL: an endpoint is secure exactly for the schemes https and unixs (TLS over a unix socket)
+//@ import url "net/url"
+//@ import stdlog "log"
+//@ import credentials "google.golang.org/grpc/credentials"
+//@ uninterp func schemeOf(s string) string
+//@ func url.Parse
 //@   assumed
+//@   results u, err
+//@   ensures err == nil ==> u != nil && u.Scheme == schemeOf(rawURL)
+//@   modifies nothing
+//@ func log.Panicf
+//@   assumed
+//@   ensures false      // does not return
+//@   modifies nothing
+//@ func resolveURL
+//@   maypanic
+//@   results addr, secure, network
+//@   ensures [C17.url.secure] secure == (schemeOf(urlStr) == "https" || schemeOf(urlStr) == "unixs")
+//@   ensures [C17.url.network] (network == "unix") == (schemeOf(urlStr) == "unix" || schemeOf(urlStr) == "unixs")
+//@   modifies nothing
+// TLS credentials are recognisable among the server options
+//@ uninterp func isCreds(o Iface) bool
+//@ func grpc.Creds
+//@   assumed
+//@   ensures isCreds(result)
 //@   modifies nothing
 
 // createAPIServer: both interceptor chains - streaming and unary - contain the auth interceptor,
@@ -62,6 +85,7 @@ package cmd
 //@   requires log != nil && reg != nil
 //@   before grpc.ChainStreamInterceptor assert [C17.chain.stream] exists j int :: 0 <= j && j < len(interceptors) && isAuthStream(interceptors[j])
 //@   before grpc.ChainUnaryInterceptor assert [C17.chain.unary] exists j int :: 0 <= j && j < len(interceptors) && isAuthUnary(interceptors[j])
+//@   before regattaserver.NewServer assert [C17.tls.applied.api] (schemeOf(cfgStr("api.address")) == "https" || schemeOf(cfgStr("api.address")) == "unixs") ==> exists j int :: 0 <= j && j < len(opts) && isCreds(opts[j])
 //@   before security.(TLSInfo).ServerConfig assert [C17.tls.wiring.api] t.TrustedCAFile == cfgStr("api.ca-filename") && t.ClientCertAuth == cfgBool("api.client-cert-auth") && t.AllowedCN == cfgStr("api.allowed-cn") && t.AllowedHostname == cfgStr("api.allowed-hostname")
 //@   modifies nothing
 // createReplicationServer: the TLS options of the replication endpoint are the replication.* settings
@@ -69,6 +93,7 @@ package cmd
 //@   maypanic
 //@   functype reg regContract
 //@   requires log != nil && reg != nil
+//@   before regattaserver.NewServer assert [C17.tls.applied.replication] (schemeOf(cfgStr("replication.address")) == "https" || schemeOf(cfgStr("replication.address")) == "unixs") ==> exists j int :: 0 <= j && j < len(opts) && isCreds(opts[j])
 //@   before security.(TLSInfo).ServerConfig assert [C17.tls.wiring.replication] t.TrustedCAFile == cfgStr("replication.ca-filename") && t.ClientCertAuth == cfgBool("replication.client-cert-auth") && t.AllowedCN == cfgStr("replication.allowed-cn") && t.AllowedHostname == cfgStr("replication.allowed-hostname")
 //@   modifies nothing
 //@ func regContract
